@@ -317,24 +317,7 @@ public:
 	}
 	
 	~splinetable(){
-		if(ndim){
-			uint64_t ncoeffs=strides[0]*naxes[0];
-			for(uint32_t i=0; i<ndim; i++)
-				deallocate(knots[i]-order[i],nknots[i]+2*order[i]);
-			deallocate(knots,ndim);
-			deallocate(nknots,ndim);
-			deallocate(order,ndim);
-			if(extents){
-				deallocate(extents[0],2*ndim);
-				deallocate(extents,ndim);
-			}
-			if(periods)
-				deallocate(periods,ndim);
-			deallocate(coefficients,ncoeffs);
-			deallocate(naxes,ndim);
-			deallocate(strides,ndim);
-		}
-		release_aux();
+		clear();
 	}
 	
 	splinetable& operator=(splinetable&& other){
@@ -818,6 +801,40 @@ private:
 		typedef std::allocator_traits<other_alloc_t> other_alloc_traits;
 		other_alloc_t other_alloc(allocator);
 		other_alloc_traits::deallocate(other_alloc,buf,n);
+	}
+	
+	///Release all storage and return to the empty state. Every pointer is
+	///checked, so this also disposes of the partially built table which a
+	///failed read_fits would otherwise leave behind.
+	void clear(){
+		if(knots){
+			for(uint32_t i=0; i<ndim; i++){
+				if(knots[i])
+					deallocate(knots[i]-order[i],nknots[i]+2*order[i]);
+			}
+			deallocate(knots,ndim);
+		}
+		if(nknots)
+			deallocate(nknots,ndim);
+		if(order)
+			deallocate(order,ndim);
+		if(extents){
+			if(extents[0])
+				deallocate(extents[0],2*ndim);
+			deallocate(extents,ndim);
+		}
+		if(periods)
+			deallocate(periods,ndim);
+		if(coefficients)
+			deallocate(coefficients,strides[0]*naxes[0]);
+		if(naxes)
+			deallocate(naxes,ndim);
+		if(strides)
+			deallocate(strides,ndim);
+		release_aux();
+		ndim=0;
+		order=NULL; knots=NULL; nknots=NULL; extents=NULL; periods=NULL;
+		coefficients=NULL; naxes=NULL; strides=NULL;
 	}
 	
 	///Release all auxiliary keys and values, whether or not the table holds
